@@ -1175,6 +1175,15 @@ func (ev *SpecEnv) callExpr(x *ast.CallExpr) (Val, types.Type) {
 			sub.vars[p] = v
 			sub.vtypes[p] = t
 		}
+		if sf.Pkg != "" && (ev.pkg == nil || ev.pkg.Path() != sf.Pkg) {
+			// a macro defined in another package's contract file: type names in its body resolve in that package
+			for _, sp := range ev.ex.P.Prog.AllPackages() {
+				if sp.Pkg.Path() == sf.Pkg {
+					sub.pkg = sp.Pkg
+					break
+				}
+			}
+		}
 		// spec functions may refer to contract-level lets of the caller? no: closed.
 		return sub.eval(sf.Expr)
 	}
